@@ -22,6 +22,15 @@ def zone_name(inst, z):
     return inst["zones"][z].get("name", "Z%d" % z).encode()
 
 
+def names_order(inst):
+    """the order in which the names answer lists the zones / groups: every entry carries its own number, so any order describes the
+    same installation (optional `names_order` in the installation; default ascending)"""
+    order = inst.get("names_order")
+    if not order:
+        return sorted(inst["zones"])
+    return [z for z in order if z in inst["zones"]] + [z for z in sorted(inst["zones"]) if z not in order]
+
+
 def ac_name(a):
     return a.get("name", "AC%d" % a["id"]).encode()
 
@@ -32,7 +41,7 @@ def at4_handshake(inst):
     text = inst.get("version", "1.2.3").encode()
     ops.append(msg(0x1F, bytes([0xFF, 0x30, inst.get("update", 0), len(text)]) + text))
     body = b""
-    for z in sorted(inst["zones"]):
+    for z in names_order(inst):
         body += bytes([z]) + zone_name(inst, z)[:8].ljust(8, b"\0")
     ops.append(msg(0x1F, bytes([0xFF, 0x12]) + body))
     body = b""
@@ -74,7 +83,7 @@ def at5_handshake(inst):
     text = inst.get("version", "1.2.3").encode()
     ops.append(msg(0x1F, bytes([0xFF, 0x30, inst.get("update", 0), len(text)]) + text))
     body = b""
-    for z in sorted(inst["zones"]):
+    for z in names_order(inst):
         n = zone_name(inst, z)
         body += bytes([z, len(n)]) + n
     ops.append(msg(0x1F, bytes([0xFF, 0x13]) + body))
@@ -273,6 +282,10 @@ def random_install(rng, gen, n_acs=None, n_zones=None):
         for z in zones:
             zones[z]["name"] = stem + str(z)
     extra = {}
+    if len(zones) >= 2 and rng.random() < 0.25:
+        order = sorted(zones)
+        rng.shuffle(order)
+        extra["names_order"] = order
     free = [z for z in range(16) if z not in zones]
     if free and rng.random() < 0.2:
         # a group / zone that has a name on the console but belongs to no air-conditioner (a spare damper output that was named once)
@@ -401,7 +414,8 @@ class Console:
         if k < 0.35:
             return None
         if k < 0.45:
-            return (1, rng.randint(0, 23), rng.randint(0, 59))       # disabled, with left-over time digits
+            # disabled, with left-over digits in the time bits - also digits that are no time of day (all five / six bits set)
+            return (1, rng.choice([rng.randint(0, 23), 24, 31]), rng.choice([rng.randint(0, 59), 60, 63]))
         return (rng.choice([0, 7, 23, rng.randint(0, 23)]), rng.choice([0, 30, 59, rng.randint(0, 59)]))
 
     def unknown_ac(self):
